@@ -149,7 +149,7 @@ Definition hz (l : list Z) (e : Z) : bool := (hash_ztuple l =? e) && (hash_ztupl
 
 def corr_pyhash(ck):
     rng = random.Random(f'{ck.seed}:pyhash')
-    n = 1200 if ck.tier == 'quick' else 40000
+    n = 1200 if ck.tier == 'quick' else 16000
     vals = list(BOUNDARY) + [True, False, (), (True,), (False, 0), ((),), ((), ()), (-1,), (-1, -1), (P61,), ((P61, -1), 2 ** 63)]
     vals += [(x, y) for x in BOUNDARY[:12] for y in BOUNDARY[:12]]
     while len(vals) < n:
@@ -440,6 +440,62 @@ def corr_molecules(ck):
                      [repr(x) for x in bad[:20]])
     by_tag = {tag: (smi, m) for tag, smi, m in mols}
     return good, bad, by_tag
+
+
+# ------------------------------------------------------------------------------------------------------------
+# exhaustive small space: EVERY labelled graph on 1..4 atoms (numbers 1..n, elements C N O S, single bonds) x EVERY
+# pair of radii in -1..5: chain set; plus fragments / hash set / Morgan dictionaries on the documented radii
+
+def all_small_graphs():
+    from chython import MoleculeContainer
+    from chython.periodictable import Element
+    for n in (1, 2, 3, 4):
+        pairs = list(itertools.combinations(range(1, n + 1), 2))
+        for mask in range(2 ** len(pairs)):
+            m = MoleculeContainer()
+            for i in range(1, n + 1):
+                m.add_atom(Element.from_atomic_number((6, 7, 8, 16)[i - 1])(), i)
+            for k, (i, j) in enumerate(pairs):
+                if mask >> k & 1:
+                    m.add_bond(i, j, 1)
+            yield f'graph{n}:{mask}', m
+
+
+def corr_exhaustive(ck):
+    rng = random.Random(f'{ck.seed}:exhaustive')
+    quick = ck.tier == 'quick'
+    grid = [(lo, hi) for lo in range(-1, 6) for hi in range(-1, 6)]
+    defs, cases, meta = [], [], []
+    for i, (tag, m) in enumerate(all_small_graphs()):
+        g = f'x{i}'
+        n = len(m._atoms)
+        defs.append(f'Definition {g} : mol := {coqmol.mol_term(m)}.\n')
+        # quick: the whole grid for up to 3 atoms, a third of it (seeded) for the 64 graphs on 4 atoms
+        radii = grid if (n <= 3 or not quick) else rng.sample(grid, len(grid) // 3)
+        for lo, hi in radii:
+            cases.append(f'chains_ok {g} {zraw(lo)} {zraw(hi)} {pl(sorted(m._chains(lo, hi)))}')
+            meta.append((tag, '_chains(set)', (lo, hi)))
+            ck.case(meta[-1], nontrivial=bool(m._bonds) and 1 <= hi)
+        ck.count(f'exhaustive:graphs on {n} atoms')
+        lo, hi = rng.choice([(1, 4), (1, 3), (2, 4), (2, 2), (1, 2)])
+        nbp = rng.choice([0, 1, 2, 3])
+        cases.append(f'lhs_full_ok {g} {zraw(lo)} {zraw(hi)} {zraw(nbp)} {zl(sorted(m.linear_hash_set(lo, hi, nbp)))}')
+        meta.append((tag, 'linear_hash_set', (lo, hi, nbp)))
+        ck.case(meta[-1])
+        t_, err = res_term(lambda: m._morgan_hash_dict(lo, hi), lambda ds: lst([dict_term(x) for x in ds]))
+        cases.append(f'mhd_full_ok {g} {zraw(lo)} {zraw(hi)} ({t_})')
+        meta.append((tag, '_morgan_hash_dict', (lo, hi)))
+        ck.case(meta[-1])
+    ck.count('exhaustive:cases', len(cases))
+    ok, failing, log = coqcases.run_cases('c17x', IMPORTS, cases, extra=EXTRA + ''.join(defs), shard=max(1, (len(cases) + 3) // 4))
+    good = ok and not failing
+    ck.oblige(f'correspondence (exhaustive): _chains on every labelled graph with 1..4 atoms x radii in -1..5 ({"a seeded third of the grid for 4 atoms" if quick else "whole grid"}), '
+              f'linear_hash_set and _morgan_hash_dict on each graph == Coq model on {len(cases)} cases', good, 'correspondence', log or str([meta[i] for i in failing[:5]]))
+    ck.extra['exhaustive_cases'] = len(cases)
+    if not good:
+        ck.unchecked('correspondence Fingerprint model vs chython on the exhaustive small space', log[-1500:], [repr(meta[i]) for i in failing[:20]])
+    by_tag = {tag: (None, m) for tag, m in all_small_graphs()}
+    return good, [meta[i] for i in failing], by_tag
 
 
 # ------------------------------------------------------------------------------------------------------------
@@ -889,23 +945,31 @@ print(sorted(S().{name}(1, 4, {ln}, {nab})))
 
 
 def run(ck):
-    ck.trusted += ['correspondence runner harness/checks/C17.py + harness/coqcases.py + harness/coqmol.py (printing of live molecules as Coq terms)',
+    ck.trusted += ['correspondence runner harness/checks/C17.py + harness/coqcases.py + harness/coqmol.py (printing of live molecules and results as Coq terms)',
                    'CachedMethods shim harness/boot.py', 'CPython 3.12.1 (its hash() is what PyHash is compared with)',
-                   'the set/sort canonicalisation helpers set_z / set_paths / msort of Model.Fingerprint used only to compare model output with sorted Python output',
-                   'brute-force path enumerator and recursive neighbourhood hasher of the search (Python, independent of the model)']
+                   'the comparison helpers of the cases: set_z / set_paths / msort of Model.Fingerprint (sorted duplicate-free form of a Python set), canon_frags and '
+                   'enc_key (fragment keys recoded by the position of each identifier in the observed identifier dictionary) of harness/checks/C17.py',
+                   'brute-force path enumerator, fragment counter, recursive neighbourhood hasher and window arithmetic of the search (Python, independent of the model)']
     ck.assumptions += ['theorems are about the Gallina model of _chains/_fragments/linear_hash_set/linear_bit_set/_morgan_hash_dict/morgan_*; the tie is the '
-                       'exact correspondence on corpus / hand-made / generated / malformed-parameter inputs, with PyHash making hash values comparable bit for bit',
+                       'exact correspondence on corpus / hand-made / generated / malformed-parameter inputs, with PyHash making hash values comparable bit for bit '
+                       '(the cases evaluate hash_ztuple_fast, proved equal to PyHash.hash_ztuple: C17_hash_ztuple_fast_eq)',
                        'CPython set iteration order is not modelled: set-valued results are compared as sorted lists, _fragments value lists after sorting; '
-                       'the order of arr.add calls of _chains is observed through an injected recording set for min_radius != 1',
+                       'the order of arr.add calls of _chains is observed through an injected recording set for min_radius != 1 (for min_radius = 1 the queue is '
+                       'filled from a set and only the resulting set is compared)',
+                       'for molecules of more than 10 atoms the identifier dictionary observed on the implementation is compared with atom_identifiers g once and '
+                       'then fed to fragments_with / morgan_hash_dict_with (whose instances at atom_identifiers g are fragments / morgan_hash_dict by definition)',
                        'int(log2(length)) is modelled as Z.log2 length (exact for 0 < length < 2^49 - 1); numpy arrays (linear_fingerprint, morgan_fingerprint) '
                        'and the SMILES-producing variants (linear_hash_smiles, morgan_hash_smiles, *_smiles_hash) are not modelled: search only',
-                       'molecules satisfy Graph.wf_mol (checked on every correspondence molecule); KeyError paths for dangling neighbours are not modelled']
+                       'molecules satisfy Graph.wf_mol (checked on every correspondence molecule); KeyError paths for dangling neighbours and CGR containers '
+                       '(FingerprintsCGR._atom_identifiers) are not modelled']
     ck.extra['rule'] = ('PyHash: boundary ints around 0, -1, 2^61-1, 2^63, 2^64 and their pairs, then random ints/bools/nested tuples (depth <= 3, length <= 9) and flat int '
-                        'tuples; every case is non-trivial. Fingerprints: empty molecule, hand-made molecules, lipophilicity.csv sample (<= 30 atoms, some renumbered / '
+                        'tuples; every case is non-trivial. Folding: the real linear_bit_set / morgan_bit_set on stub hash sets (boundary values 0, -1, +-2^63, +-2^62, '
+                        'alternating bit patterns, random 64-bit values) x 57 lengths (2^0..2^33, 2^40, 2^48, non powers of two, <= 0) x active bits -1..8. '
+                        'Fingerprints: empty molecule, hand-made molecules, lipophilicity.csv sample (<= 30 atoms, some renumbered / '
                         'insertion-order shuffled), random labelled graphs of 1-7 atoms built through add_atom/add_bond with sparse numbers, charges, isotopes, radicals; '
                         'per molecule a random part of the grid radii (1..6 incl. min>max, min<1) x length (2^k, non powers of two, <= 0) x active bits (-1..7) x bit '
-                        'pairs (-1..9). Search: same families, more molecules, oracle = brute-force paths / counts / recursive Morgan / window arithmetic / '
-                        'renumbering / shuffling; a path case is non-trivial when there are more paths than atoms')
+                        'pairs (-1..9), bounded by a per-molecule budget of hashed items and of chains. Search: same families, more molecules, oracle = brute-force '
+                        'paths / counts / recursive Morgan / window arithmetic / renumbering / shuffling; a path case is non-trivial when there are more paths than atoms')
     import time
     phase = ck.extra['phase_s'] = {}
 
@@ -918,10 +982,12 @@ def run(ck):
     proved = timed('proof steps', common.standard_proof_steps, ck, [])
     tied_hash = timed('correspondence PyHash', corr_pyhash, ck)
     tied_fold, bad_fold = timed('correspondence folding', corr_folding, ck)
+    tied_x, bad_x, by_tag_x = timed('correspondence exhaustive', corr_exhaustive, ck)
     tied_fp, bad, by_tag = timed('correspondence molecules', corr_molecules, ck)
-    all_ok = proved and tied_hash and tied_fp and tied_fold
-    if not tied_fp:
-        timed('directed search', directed_search, ck, bad, by_tag)
+    all_ok = proved and tied_hash and tied_fp and tied_fold and tied_x
+    if not (tied_fp and tied_x):
+        by_tag.update(by_tag_x)
+        timed('directed search', directed_search, ck, bad_x + bad, by_tag)
     if not tied_fold:
         timed('directed folding search', directed_fold_search, ck, bad_fold)
     if ck.tier == 'quick':
@@ -930,4 +996,4 @@ def run(ck):
         n_corpus, n_gen = (1500, 1500) if all_ok else (3000, 3000)
     timed('search', search, ck, n_corpus, n_gen)
     ck.extra['proved'] = proved
-    ck.extra['tied'] = bool(tied_hash and tied_fp and tied_fold)
+    ck.extra['tied'] = bool(tied_hash and tied_fp and tied_fold and tied_x)
